@@ -1191,3 +1191,35 @@ Proof.
             inversion Fc; subst c; rewrite !K2; vm_compute; reflexivity).
   all: destruct K2 as [K2 | K2]; rewrite K2; reflexivity.
 Qed.
+
+Lemma get_op_key_err_global op k l r :
+  k_ops k = Some (PList l) -> ~ In (PStr (asc op)) l -> find_op op = Some r ->
+  get_op_key op k = Err (EJose UnsupportedKeyOperationError).
+Proof.
+  intros E Hn F. unfold get_op_key. rewrite (check_key_op_err op k l r E Hn F). reflexivity.
+Qed.
+
+(* ---------- the gates are stateless ---------- *)
+(* whatever was done before with the same key object, the verdict of an operation is the
+   verdict of that operation on a fresh key with the same parameters *)
+Theorem gate_stateless k history op :
+  last (run_history k (history ++ [op])) (Ok tt) = op_verdict k op /\
+  (forall op', nth_error (run_history k (history ++ [op])) (length history) = Some (op_verdict k op) /\
+               run_history k (op' :: history ++ [op]) = op_verdict k op' :: run_history k (history ++ [op])).
+Proof.
+  unfold run_history. split.
+  - rewrite map_app. simpl. apply last_last.
+  - intro op'. split; [|reflexivity].
+    rewrite map_app, nth_error_app2 by (rewrite map_length; apply Nat.le_refl).
+    rewrite map_length, Nat.sub_diag. reflexivity.
+Qed.
+
+(* hence a permitted warm-up never opens a gate: if the key_ops of a well-formed key lack
+   the operation, it is refused after ANY history *)
+Theorem gate_after_history k history op l r :
+  k_ops k = Some (PList l) -> ~ In (PStr (asc op)) l -> find_op op = Some r ->
+  last (run_history k (history ++ [op])) (Ok tt) = Err (EJose UnsupportedKeyOperationError).
+Proof.
+  intros E Hn F. rewrite (proj1 (gate_stateless k history op)).
+  unfold op_verdict. rewrite (get_op_key_err_global op k l r E Hn F). reflexivity.
+Qed.
